@@ -212,13 +212,40 @@ class Interp:
             self.try_(st, env)
         elif t is ast.With:
             # only model context managers supplied by a rule (objects with `_cm_value`)
+            suppress = ()
             for item in st.items:
                 cm = ev(item.context_expr, env)
+                if isinstance(cm, _Suppress):
+                    suppress += cm.classes
+                    continue
                 if not hasattr(cm, '_cm_value'):
                     raise Unknown(f'with-statement over a non-model context manager: {ast.unparse(item.context_expr)[:60]}')
                 if item.optional_vars is not None:
                     self.assign(item.optional_vars, cm._cm_value, env)
-            self.block(st.body, env)
+            if suppress:
+                try:
+                    self.block(st.body, env)
+                except PyRaise as e:
+                    if not any(exc_issub(e.cls, c) for c in suppress):
+                        raise
+            else:
+                self.block(st.body, env)
+        elif t is ast.Match:
+            subject = ev(st.subject, env)
+            if isinstance(subject, Sym):
+                raise Unknown(f'match on a symbolic value: {ast.unparse(st.subject)}')
+            for case in st.cases:
+                binds = {}
+                if self.match_pattern(case.pattern, subject, env, binds):
+                    env.update(binds)
+                    if case.guard is not None:
+                        g = ev(case.guard, env)
+                        if isinstance(g, Sym):
+                            raise Unknown('symbolic match guard')
+                        if not g:
+                            continue
+                    self.block(case.body, env)
+                    break
         elif t is ast.Delete:
             for tgt in st.targets:
                 if isinstance(tgt, ast.Subscript):
@@ -256,6 +283,42 @@ class Interp:
             return
         else:
             raise Unknown(f'statement kind {t.__name__} outside the interpreter grammar (line {st.lineno})')
+
+    def match_pattern(self, p, val, env, binds):
+        """Structural pattern matching for the pattern kinds a constant dispatch uses."""
+        if isinstance(p, ast.MatchValue):
+            return val == ev(p.value, env)
+        if isinstance(p, ast.MatchSingleton):
+            return val is p.value
+        if isinstance(p, ast.MatchOr):
+            return any(self.match_pattern(q, val, env, binds) for q in p.patterns)
+        if isinstance(p, ast.MatchAs):
+            if p.pattern is not None and not self.match_pattern(p.pattern, val, env, binds):
+                return False
+            if p.name is not None:
+                binds[p.name] = val
+            return True
+        if isinstance(p, ast.MatchSequence):
+            if isinstance(val, (str, bytes, bytearray)) or not isinstance(val, (list, tuple)):
+                return False
+            star = [i for i, q in enumerate(p.patterns) if isinstance(q, ast.MatchStar)]
+            if not star:
+                return len(val) == len(p.patterns) and all(self.match_pattern(q, v, env, binds) for q, v in zip(p.patterns, val))
+            k = star[0]
+            after = len(p.patterns) - k - 1
+            if len(val) < k + after:
+                return False
+            if not all(self.match_pattern(q, v, env, binds) for q, v in zip(p.patterns[:k], val[:k])):
+                return False
+            if after and not all(self.match_pattern(q, v, env, binds) for q, v in zip(p.patterns[k + 1:], val[len(val) - after:])):
+                return False
+            if p.patterns[k].name is not None:
+                binds[p.patterns[k].name] = list(val[k:len(val) - after])
+            return True
+        if isinstance(p, ast.MatchClass) and not p.patterns and not p.kwd_attrs:
+            cls = ev(p.cls, env)
+            return _evmod._isinstance(val, cls)
+        raise Unknown(f'match pattern {type(p).__name__} is outside the interpreter grammar')
 
     def exc_class(self, node, env):
         """Exception class denoted by the operand of ``raise`` / an ``except`` clause."""
@@ -472,6 +535,20 @@ def _is_exception_class(node, genv, depth=0):
     return False
 
 
+class _Suppress:
+    """contextlib.suppress(*classes)."""
+
+    def __init__(self, *classes):
+        self.classes = tuple(classes)
+
+
+class _NullContext:
+    """contextlib.nullcontext(value)."""
+
+    def __init__(self, value=None):
+        self._cm_value = value
+
+
 class ClassVal:
     """A class of the repository as something the interpreter can call.  A class derived from a namedtuple becomes a real
     tuple subclass whose methods and properties are interpreted; any other class gives an `Instance`."""
@@ -495,7 +572,30 @@ class ClassVal:
                 b = None
             if isinstance(b, ClassVal):
                 b = b._tuple_class()
-            if isinstance(b, type) and issubclass(b, tuple):
+            import enum as _enum
+            import typing as _typing
+            if b is _typing.NamedTuple:
+                # class X(NamedTuple): a: int; b: int = 0
+                fields, defaults = [], []
+                for st in node.body:
+                    if isinstance(st, ast.AnnAssign) and isinstance(st.target, ast.Name):
+                        fields.append(st.target.id)
+                        if st.value is not None:
+                            defaults.append(ev(st.value, genv))
+                        elif defaults:
+                            raise Unknown(f'NamedTuple {node.name}: field without default after fields with defaults')
+                import collections as _c
+                base = _c.namedtuple(node.name, fields, defaults=defaults or None)
+            elif isinstance(b, type) and issubclass(b, _enum.Enum):
+                if any(isinstance(st, ast.FunctionDef) for st in node.body):
+                    raise Unknown(f'enum {node.name} with methods is outside the interpreter grammar')
+                members = {}
+                for st in node.body:
+                    if isinstance(st, ast.Assign) and len(st.targets) == 1 and isinstance(st.targets[0], ast.Name):
+                        members[st.targets[0].id] = ev(st.value, genv)
+                self._pycls = b(node.name, members)
+                return self._pycls
+            elif isinstance(b, type) and issubclass(b, tuple):
                 base = b
         if base is None:
             self._pycls = False
@@ -533,7 +633,35 @@ class ClassVal:
         pc = self._tuple_class()
         if pc is not None:
             return pc(*args, **kw)
+        decos = [(d.func if isinstance(d, ast.Call) else d) for d in node.decorator_list]
+        names = [d.id if isinstance(d, ast.Name) else getattr(d, 'attr', None) for d in decos]
+        if 'dataclass' in names and not forest.has_func(mod, f'{node.name}.__init__'):
+            fields = [(st.target.id, st.value) for st in node.body if isinstance(st, ast.AnnAssign) and isinstance(st.target, ast.Name)]
+            if len(args) > len(fields) or set(kw) - {f for f, _ in fields}:
+                raise PyRaise(TypeError, node, f'{node.name}() got unexpected arguments')
+            obj = Instance(forest, mod, node.name, genv, it)
+            for i, (f, dflt) in enumerate(fields):
+                if i < len(args):
+                    val = args[i]
+                elif f in kw:
+                    val = kw[f]
+                elif dflt is not None:
+                    if isinstance(dflt, ast.Call) and (getattr(dflt.func, 'id', None) == 'field' or getattr(dflt.func, 'attr', None) == 'field'):
+                        raise Unknown(f'dataclass {node.name}: field() defaults are outside the interpreter grammar')
+                    val = ev(dflt, genv)
+                else:
+                    raise PyRaise(TypeError, node, f'{node.name}() missing argument {f!r}')
+                setattr(obj, f, val)
+            if forest.has_func(mod, f'{node.name}.__post_init__'):
+                FuncVal(forest.func(mod, f'{node.name}.__post_init__'), genv, it)(obj)
+            return obj
         return Instance.new(forest, mod, node.name, genv, it, *args, **kw)
+
+    def __iter__(self):
+        pc = self._tuple_class()
+        if pc is None:
+            raise TypeError(f'{self.name} is not iterable')
+        return iter(pc)
 
     def __getattr__(self, name):
         if name.startswith('_'):
